@@ -124,12 +124,12 @@ Definition outcome_fields (m : outcome) : list field :=
 Definition res_fields (r : res (list Z)) : list field :=
   match r with ROk b => [FZ 0; FB b] | RErr => [FZ 1] | RUndef => [FZ 4] end.
 
+(* a deviation from the specification; the only tolerated one is the float32 double rounding (reported as drift 21)
+   when the implementation did exactly what the model of the code does *)
 Definition deviation (code : Z) (status : Z) (out : list Z) (mach : outcome) (trig : list Z) (spec : res (list Z)) : verdict :=
   if same_outcome status out mach then
-    match trig with
-    | id :: _ => if id =? D_ROUND then VDrift 21 else VKnown id
-    | [] => VBad code (res_fields spec ++ outcome_fields mach)
-    end
+    if existsb (fun id => id =? D_ROUND) trig then VDrift 21
+    else VBad code (res_fields spec ++ outcome_fields mach)
   else VBad (code + 100) (res_fields spec ++ outcome_fields mach).
 
 Definition check_901 (fs : list field) : verdict :=
@@ -145,16 +145,19 @@ Definition check_901 (fs : list field) : verdict :=
       let specb := res_bind spec (fun m => ROk (encode_msg m)) in
       let mach := j2p_machine disallow sc root j in
       let trig := doc_triggers sc root j in
-      (* self-check of the model: on the strict domain the machine as coded yields the specified bytes (theorem sax_refines_spec; depth bound 128 there, the stack limit decides here) *)
+      let fits := Nat.leb (frames_needed sc root j) 256 in
+      (* self-check of the model against its theorems (sax_refines_spec, sax_error_sound): on the strict domain the machine
+         yields the specified bytes / fails where the specification fails; beyond 256 frames it fails with the max-depth error *)
       let consistent :=
         match denote_top true disallow sc root j with
         | ROk m =>
           match mach with
-          | OOk b => bytes_eqb b (encode_msg m) && match spec with ROk m' => bytes_eqb (encode_msg m') b | _ => false end
-          | OErr => negb (Nat.ltb (json_depth j) 129)
+          | OOk b => fits && bytes_eqb b (encode_msg m) && match spec with ROk m' => bytes_eqb (encode_msg m') b | _ => false end
+          | OErr => negb fits
           | _ => false
           end
-        | _ => true
+        | RErr => match mach with OErr => true | _ => false end
+        | RUndef => true
         end in
       if negb consistent then VBad 90 (res_fields specb ++ outcome_fields mach) else
       match spec with
@@ -168,13 +171,16 @@ Definition check_901 (fs : list field) : verdict :=
             else deviation 1 status out mach trig specb
           | None => deviation 2 status out mach trig specb
           end
-        else if (status =? 1) && negb (Nat.ltb (json_depth j) 129) && same_outcome status out mach then VSkip  (* converter's stack limit *)
+        else if (status =? 1) && negb fits then VSkip      (* beyond the converter's 256-frame stack: the max-depth error is the specified outcome *)
         else deviation 4 status out mach trig specb
       | RErr =>
         if status =? 1 then VOk else deviation 5 status out mach trig specb
       | RUndef =>
+        (* outside the property (documented quirks: wrapped integers, null elements, duplicates, ...): nothing is demanded of
+           the converter, but it must do what the model of the code does (the quirk witnesses of Properties_C09 are replayed here) *)
         if status =? 2 then deviation 6 status out mach trig specb
-        else if same_outcome status out mach then VSkip else VDrift 2
+        else if same_outcome status out mach then VSkip
+        else match mach with OUnmod => VDrift 2 | _ => VBad 107 (res_fields specb ++ outcome_fields mach) end
       end
     end
   | _ => VBad 99 []
